@@ -1,7 +1,13 @@
 CONSTANTS
-  MaxLen = 24
+  MaxLen = 26
   UseChans = {1}
   Emit = FALSE
+  CloseAfter = 0
+  FmSet = {4096}
+  CmSet = {1}
+  HdrSet = {4090}
+  BodySet = {2, 4088}
+  Work = {"Queue.Declare", "Queue.DeclareOk", "Basic.Deliver", "Basic.Get", "Basic.GetEmpty"}
 SPECIFICATION MSpec
 VIEW View
 INVARIANT NoCompleteConversation
